@@ -176,6 +176,29 @@ Fixpoint conv_ok (E : env) (d : desc) (v w : pv) {struct d} : bool :=
       end
   end.
 
+(* ---------- Union: "the first trait in the list that can validate the assigned value" ---------- *)
+(* alternatives that certainly accept v as it is (a value of exactly their type; for PrefixList a member or a string with
+   exactly one completion): the search must not get past one of them *)
+Definition accepts_exact (E : env) (a : desc) (v : pv) : bool :=
+  match a, v with
+  | DAny, _ => true
+  | DInt, PInt _ | DFloat, PFloat _ | DComplex, PComplex _ _ => true
+  | DStr, PStr _ => typecheck E v cSTR | DBytes, PBytes _ => typecheck E v cBYTES | DBool, PBool _ => typecheck E v cBOOL
+  | DPrefixList keys, PStr s =>
+      existsb (zlist_eqb s) keys || match filter (fun k => is_prefix s k) keys with [_] => true | _ => false end
+  | _, _ => false
+  end.
+(* w is the conversion by an alternative that no certainly-accepting alternative precedes *)
+Definition union_first (E : env) (ds : list desc) (v w : pv) : bool :=
+  (fix go (l : list desc) : bool :=
+     match l with
+     | [] => false
+     | a :: r => conv_ok E a v w || (negb (accepts_exact E a v) && go r)
+     end) ds.
+(* the documented conversion of an assignment: conv_ok, and for a Union the declaration order as well *)
+Definition conv_ok1 (E : env) (d : desc) (v w : pv) : bool :=
+  conv_ok E d v w && match d with DUnion ds => union_first E ds v w | _ => true end.
+
 (* ---------- exceptions of the value's own conversion protocol ---------- *)
 Fixpoint raises_own (v : pv) (e : exn) : bool :=
   match v with
@@ -244,7 +267,7 @@ Definition is_ok (o : outcome) : bool := match o with Ok => true | _ => false en
 (* clauses: 1 every entry written by the operation lies in its declared domain (shadow = mapped value)
             2 attributes that were not assigned are exactly as they were
             3 a failing assignment leaves every attribute as it was
-            4 a successful assignment stores the documented conversion
+            4 a successful assignment stores the documented conversion (for a Union: of the FIRST accepting alternative)
             5 the exception is TraitError naming the attribute, or the one the value's own protocol raised
             6 a value stored under a name-based Range lies within the bounds of that moment *)
 Definition law_step (E : env) (c : cls) (before : inst) (o : op) (ob : obs) : list Z :=
@@ -266,7 +289,7 @@ Definition law_step (E : env) (c : cls) (before : inst) (o : op) (ob : obs) : li
             end)
   ++ chk 4 (match o_out ob with
             | Ok => forallb (fun p => match trait_of c (fst p), get after (fst p) with
-                                      | Some (d, _), Some w => conv_ok E d (snd p) w
+                                      | Some (d, _), Some w => conv_ok1 E d (snd p) w
                                       | _, _ => false
                                       end) kw
             | Raise _ => true
